@@ -104,6 +104,9 @@ func (c *ChartDownloader) DownloadTo(ref, version, dest string) (string, *proven
 	}
 
 	name := filepath.Base(u.Path)
+	if name == "." || name == ".." || name == string(filepath.Separator) {
+		return "", nil, errors.Errorf("cannot derive a chart file name from URL %q", u.String())
+	}
 	if u.Scheme == registry.OCIScheme {
 		idx := strings.LastIndexByte(name, ':')
 		name = fmt.Sprintf("%s-%s.tgz", name[:idx], name[idx+1:])
